@@ -50,19 +50,26 @@ def pAtt : SP → Bool → Bool
   | .sc, a => a
   | _, _ => false
 
+/-- the monitor never rejected, and trailers are always followed by the end of the message at once -/
+def pFine : SP → Bool
+  | .bad => false
+  | .s2 => false
+  | _ => true
+
 def isS1 : SP → Bool
   | .s1 => true
   | _ => false
 
 /-- the invariant that ties the monitor to the state of the stream (a function of the few fields it mentions) -/
 def JF (p : SP) (bad attached pt hasFlow : Bool) (cs : CS) (ss : SS) (paused : Option K) : Bool :=
-  bad ||
+  pFine p &&
+  (bad ||
   (pAtt p attached
    && imp (paused.isSome || cs != .waitHdr) hasFlow
    && imp (cs == .stream) (isS1 p)
    && imp (cs == .waitHdr || cs == .consume || cs == .uninit) (!attached)
    && imp (paused.isNone && !pt && cs == .done && !attached) (ss == .done || ss == .errored)
-   && (match paused with | none => true | some k => pOK cs attached k))
+   && (match paused with | none => true | some k => pOK cs attached k)))
 
 def J (p : SP) (c : Core) : Bool := JF p c.bad c.attached c.pt c.hasFlow c.cs c.ss c.paused
 
@@ -86,11 +93,11 @@ macro_rules
       (simp only [resume, handlePE, peAfter, killedFire, killedSilent, sendResponse, startRequestStream, cbsErrFire,
         connectFinish, flowDone, onReqHeaders, clientEvent, serverEvent, ↓reduceIte, Bool.false_eq_true, reduceCtorEq] <;>
        (repeat' split) <;>
-       (simp [J, JF, pOK, pAtt, isS1, imp, fire, fireC, mk, crash, W.pre, outIf, connectSends, killFinishC, peRetC,
+       (simp [J, JF, pOK, pAtt, pFine, isS1, imp, fire, fireC, mk, crash, W.pre, outIf, connectSends, killFinishC, peRetC,
           List.foldl_append, *] at * <;>
         (first | done |
           (cases $p:ident <;> cases hcs : Core.cs $d <;> cases hss : Core.ss $d <;>
-            simp_all [adv, srvStep, pAtt, isS1] <;> (first | done | grind))))))
+            simp_all [adv, srvStep, pAtt, pFine, isS1] <;> (first | done | grind))))))
 
 set_option maxHeartbeats 8000000 in
 theorem j_resume (p : SP) (d : Core) (k : K) (ok peek : Bool) (hp : d.paused = none) (hb : d.bad = false)
